@@ -524,6 +524,23 @@ def template_programs(rng):
         out.append(('localidx:%d:%d' % (iv, jv), std_program(seq(init_stmts(rng) + [callst(call('li', [var('a'), num(1)]))]), {'li': li})))
         lm = seq(init_stmts(rng) + [ass(var('i'), num(iv)), putc(bi('+', var('LB'), var('i'))), ass(idx('b', var('i')), num(7)), putc(bi('+', var('LB'), idx('b', num(iv)))), exit_(var('i'))])
         out.append(('localidx:main:%d' % iv, std_program(lm, main_locals=['i'], main_lvals={'LB': num(48, 'char')})))
+    # a store to a local immediately followed by a load with the same small offset from another base (the peephole's pattern,
+    # with the frame slot index of the local coinciding with the subscript)
+    for nloc in (1, 2, 4):
+        for k in range(0, 7):
+            locs = ['u%d' % i for i in range(nloc)]
+            for li in range(nloc):
+                body = [ass(idx('g8', num(i)), num(40 + i)) for i in range(8)]
+                pb = [ass(var(locs[li]), bi('+', var('p'), num(1))), ass(var('w'), idx('g8', num(k))), ass(var('w2'), idx('v', num(k))),
+                      putc(var('w')), putc(var('w2')), exit_(bi('+', var('w'), var(locs[li])))]
+                sl = proc(False, [('val', 'p'), ('array', 'v')], locs + ['w', 'w2'], seq(pb))
+                P = std_program(seq(body + [callst(call('sl', [num(20), var('g8')]))]), {'sl': sl})
+                P['arrays']['g8'] = 8
+                out.append(('storeload:%d:%d:%d' % (nloc, li, k), P))
+            mb = [ass(idx('g8', num(i)), num(60 + i)) for i in range(8)] + [ass(var(locs[0]), num(7)), ass(var('w'), idx('g8', num(k))), putc(var('w')), exit_(bi('+', var('w'), var(locs[0])))]
+            P = std_program(seq(mb), main_locals=locs + ['w'])
+            P['arrays']['g8'] = 8
+            out.append(('storeload:main:%d:%d' % (nloc, k), P))
     # main with locals, stop at depth, main returning normally, exit codes
     out.append(('main:locals', std_program(seq([ass(var('m'), num(3)), ass(var('n'), bi('+', var('m'), num(4))), exit_(var('n'))]), main_locals=['m', 'n'])))
     out.append(('main:return', std_program(seq([putc(num(72)), putc(num(105))]))))
